@@ -316,6 +316,9 @@ func (p *P) Run(src *tape.Source, trace bool) *core.Result {
 		cmp("MinQuerySize(truth)", concStats.MinQuerySize, mn)
 		cmp("MaxQuerySize(truth)", concStats.MaxQuerySize, mx)
 	}
+	for _, site := range pool.DupSites() {
+		r.Fail("sequential-equality", "pool-resident-twice "+site, fmt.Sprintf("at quiescence the pool used at %s holds the same object twice: two concurrent users would share it %s", site, ctx))
+	}
 	// ---- oracle 2: race freedom on library state
 	for _, rep := range p.race.New() {
 		switch rep.Class {
